@@ -18,18 +18,32 @@ package cte
 //@   modifies out, outLen, wfailed
 //@   ensures !wfailed && outLen == old(outLen) + uint64(len(b))
 //@   ensures forall i uint64 :: i < uint64(len(b)) ==> out[old(outLen)+i] == b[i]
+//@   ensures forall j uint64 :: j < old(outLen) ==> out[j] == old(out[j])
+//@   ensures outLen <= 0x10000000000
 //@   xensures wfailed
 
 //@ func (*Writer).FlushBufferNotLF
 //@   requires _this.writer != nil && !wfailed && 0 <= count && count <= cap(_this.Buffer)
 //@   modifies out, outLen, wfailed
 //@   ensures !wfailed && outLen == old(outLen) + uint64(count)
+//@   ensures count <= len(_this.Buffer) ==> forall i uint64 :: i < uint64(count) ==> out[old(outLen)+i] == _this.Buffer[i]
+//@   ensures forall j uint64 :: j < old(outLen) ==> out[j] == old(out[j])
+//@   ensures outLen <= 0x10000000000
+//@   xensures wfailed
+
+//@ func (*Writer).WriteByteNotLF
+//@   requires _this.writer != nil && !wfailed && len(_this.Buffer) >= 1
+//@   modifies out, outLen, wfailed, _this.Column, mem(_this.Buffer)
+//@   ensures !wfailed && outLen == old(outLen) + 1 && out[old(outLen)] == b
+//@   ensures forall j uint64 :: j < old(outLen) ==> out[j] == old(out[j])
+//@   ensures outLen <= 0x10000000000
 //@   xensures wfailed
 
 //@ func (*Writer).ExpandBuffer
 //@   requires 0 <= size && size <= 0x1000000000
 //@   modifies _this.Buffer, alloc
 //@   ensures len(_this.Buffer) >= size && len(_this.Buffer) >= old(len(_this.Buffer))
+//@   ensures _this.Buffer == old(_this.Buffer) || fresh(_this.Buffer)
 
 // The adapter used when the destination is not an io.StringWriter: it cannot return an error, so
 // a failing destination must surface as a panic, never as a silent success.
@@ -41,7 +55,7 @@ package cte
 
 //@ func (*Writer).WriteStringNotLF
 //@   requires _this.stringWriter != nil && !wfailed
-//@   modifies out, outLen, wfailed, _this.Column, _this.Buffer, memall(uint8), alloc
+//@   modifies out, outLen, wfailed, _this.Column
 //@   ensures !wfailed && outLen == old(outLen) + uint64(len(str))
 //@   ensures forall i uint64 :: i < uint64(len(str)) ==> out[old(outLen)+i] == str[i]
 //@   xensures wfailed
